@@ -43,6 +43,8 @@ def _norm_items(fn_node, items):
             out.append(("rebind", _norm(fn_node, it[1]), {k: (_norm(fn_node, v[0]), v[1]) for k, v in it[2].items()}, it[3]))
         elif it[0] == "paramassign":
             out.append(("paramassign", _norm(fn_node, it[1]), _norm(fn_node, it[2]), it[3]))
+        elif it[0] == "let":
+            out.append(("let", it[1], _norm(fn_node, it[2]), it[3], it[4]))
         else:
             out.append(it)
     return out
@@ -59,15 +61,36 @@ def _fold_value_text(text):
     return (v >> 8) & 0xFF if m.group(2).startswith("high") else (v & 0xFF if v > 0xFF else v)
 
 
+def let_names(flat):
+    """-> (names bound more than once on this path, names bound once)"""
+    cnt = {}
+    for it in _walk_items(flat):
+        if it[0] == "let":
+            cnt[it[1]] = cnt.get(it[1], 0) + 1
+    return {k for k, v in cnt.items() if v > 1}, {k for k, v in cnt.items() if v == 1}
+
+
 def apply_rebinds(flat):
-    """x = x._replace(field=v): later reads of x.field denote v (NamedTuple semantics)"""
+    """x = x._replace(field=v): later reads of x.field denote v (NamedTuple semantics).
+    A local bound more than once on the path (name = a ... name = b) is replaced by its current value at each use; a local bound
+    once stays an opaque name (it means the same thing wherever it appears)."""
     over = {}
+    lets = {}
     out = []
+    rebound, _ = let_names(flat)
 
     def rw(text):
         if text is None:
             return text, None
         changed = False
+        if text in lets:
+            return lets[text]
+        for nm, (val, _) in lets.items():
+            pat = r"(?<![\w.$])%s\b(?!\s*\()" % re.escape(nm)
+            if re.search(pat, text):
+                simple = re.fullmatch(r"[\w.$]+(\(\))?", val) is not None
+                text = re.sub(pat, lambda m: val if simple else "(%s)" % val, text)
+                changed = True
         for (name, field), val in over.items():
             pat = r"(?<![\w.])%s\.%s\b" % (re.escape(name), re.escape(field))
             if re.search(pat, text):
@@ -81,6 +104,11 @@ def apply_rebinds(flat):
             if it[0] == "rebind":
                 for k, v in it[2].items():
                     over[(it[1], k)] = v[0]
+                continue
+            if it[0] == "let":
+                if it[1] in rebound:
+                    t, cst = rw(it[2])
+                    lets[it[1]] = (t, cst if cst is not None else (it[3] if t == it[2] else None))
                 continue
             if it[0] == "byte":
                 t, cst = rw(it[1])
@@ -353,6 +381,7 @@ def cas1(ctx, c):
                               "%s rewrites its input before writing it (%s = %s): the block then carries the rewritten value, not the file's own field" % (name, it[1], it[2][:60]),
                               "%s:%d" % (repo.cls(CLS).module.rel, it[3].lineno))
             flat = [x for x in flat if x[0] != "paramassign"]
+            _, once = let_names(flat)
             flat = apply_rebinds(flat)
             frame, accs, tail, closed = _frame(flat)
             if not closed or len(frame) < 6:
@@ -390,6 +419,8 @@ def cas1(ctx, c):
                 c.undecided(site + ":pairing", "pairing-not-decidable", why, where)
             elif ok:
                 c.ok(site + ":pairing", "checksum = type + length + payload (%s)" % why, where)
+            elif any(re.search(r"(?<![\w.$])%s\b" % re.escape(nm), why) for nm in once):
+                c.undecided(site + ":pairing", "pairing-involves-a-local-alias", why[:120], where)
             else:
                 c.finding(site + ":pairing", "checksum terms differ from bytes written",
                           "%s [%s]: %s" % (name, cd, why), where)
@@ -651,7 +682,40 @@ def cas6(ctx, c):
         c.ok("read_file/%s" % data_writer, "no sentinel conflict", where)
 
 
-RULES = {"CAS-1": cas1, "CAS-4": cas4, "CAS-6": cas6}
+def listing_collection(c, repo, cls):
+    """list_files returns one entry per file met, in the order met: an accumulator keyed by name (dict / set) merges files
+    that share a name and loses all but one of them"""
+    lf = repo.method(cls, "list_files")
+    where = repo.loc(lf, lf.node)
+    kinds = {}
+    for n in ast.walk(lf.node):
+        if isinstance(n, ast.Assign) and len(n.targets) == 1 and isinstance(n.targets[0], ast.Name):
+            v = n.value
+            if isinstance(v, ast.List) and not v.elts:
+                kinds[n.targets[0].id] = "list"
+            elif (isinstance(v, ast.Dict) and not v.keys) or (isinstance(v, ast.Call) and U(v.func) in ("dict", "set", "OrderedDict", "collections.OrderedDict") and not v.args):
+                kinds[n.targets[0].id] = "keyed"
+    keyed_stores = [n for n in ast.walk(lf.node) if isinstance(n, ast.Assign) and isinstance(n.targets[0], ast.Subscript)
+                    and kinds.get(U(n.targets[0].value)) == "keyed" and ".name" in U(n.targets[0].slice)]
+    keyed_adds = [n for n in ast.walk(lf.node) if isinstance(n, ast.Call) and isinstance(n.func, ast.Attribute) and n.func.attr == "add"
+                  and kinds.get(U(n.func.value)) == "keyed"]
+    appends = [n for n in ast.walk(lf.node) if isinstance(n, ast.Call) and isinstance(n.func, ast.Attribute) and n.func.attr == "append"
+               and kinds.get(U(n.func.value)) == "list"]
+    site = "%s.list_files:collection" % cls
+    if keyed_stores or keyed_adds:
+        x = (keyed_stores or keyed_adds)[0]
+        c.finding(site, "files collected in a mapping keyed by name", "%s.list_files collects the files with `%s`: two files of the same name on the image become one entry, "
+                  "the earlier one is not listed or extracted" % (cls, U(x)[:70]), repo.loc(lf, x))
+    elif appends:
+        c.ok(site, "one list entry per file met", where)
+
+
+def cas6b(ctx, c):
+    cas6(ctx, c)
+    listing_collection(c, ctx.repo, CLS)
+
+
+RULES = {"CAS-1": cas1, "CAS-4": cas4, "CAS-6": cas6b}
 
 
 # ---------------------------------------------------------------------------------------------------
